@@ -71,7 +71,7 @@ func signMarshal(v any) ([]byte, error) {
 	case cbor.Tag:
 		finalCalls++
 		if finalCalls == 1 {
-			marshalFails = rt.Choose("final.encoding.fails", 2) == 1
+			marshalFails = (!wellBehaved || lateFaults) && rt.Choose("final.encoding.fails", 2) == 1
 		}
 		if marshalFails {
 			return nil, rt.NewEnvError("cbor.encode")
@@ -127,6 +127,8 @@ type signEvent struct {
 	sig     []byte
 }
 
+var lateFaults bool
+var wellBehaved bool // the environment does not fail: key spec available, signing succeeds with one certificate, encoding succeeds
 var signLog []signEvent
 var signerCerts []*x509.Certificate
 var keySpecCalls int
@@ -141,7 +143,7 @@ type envRemoteSigner struct{}
 func (envRemoteSigner) KeySpec() (signature.KeySpec, error) {
 	keySpecCalls++
 	if keySpecCalls == 1 {
-		keySpecErr = rt.Choose("keyspec.err", 2) == 1
+		keySpecErr = !wellBehaved && rt.Choose("keyspec.err", 2) == 1
 		theKeySpec = signature.KeySpec{Type: signature.KeyType(rt.Int("keyspec.type")), Size: rt.Int("keyspec.size")}
 	}
 	if keySpecErr {
@@ -150,13 +152,16 @@ func (envRemoteSigner) KeySpec() (signature.KeySpec, error) {
 	return theKeySpec, nil
 }
 func (envRemoteSigner) Sign(payload []byte) ([]byte, []*x509.Certificate, error) {
-	if rt.Choose("sign.err", 2) == 1 {
+	if !wellBehaved && rt.Choose("sign.err", 2) == 1 {
 		signErr = true
 		return nil, nil, rt.NewEnvError("sign")
 	}
 	sig := rt.Atom(rt.Name("signature"))
 	signLog = append(signLog, signEvent{payload, sig})
-	n := rt.Choose("certs.len", 3)
+	n := 1
+	if !wellBehaved {
+		n = rt.Choose("certs.len", 3)
+	}
 	signerCerts = nil
 	for i := 0; i < n; i++ {
 		signerCerts = append(signerCerts, rt.Havoc[*x509.Certificate]("cert"+string(rune('0'+i))))
